@@ -29,8 +29,10 @@ def compile_prog(spec):
         qf = qlassf(spec["src"], to_compile=False, defs=defs, **kw)
     except Exception as e:  # front-end rejects: not a compiled function
         return None, "front-end raises %s" % type(e).__name__
-    if not hasattr(qf, "expressions") or not hasattr(qf, "compile"):
-        return None, "unbound"
+    from qlasskit import QlassF
+
+    if not isinstance(qf, QlassF):
+        return None, "unbound (parameters)"
     try:
         qf.compile("internal", uncompute=spec.get("uncompute", True))
     except Exception as e:
